@@ -5,7 +5,7 @@ import p_c09
 VFILES = ["props/C14.v"]
 USES_TRANSLATOR = True
 EXTRA_TRUST = p_c09.EXTRA_TRUST
-ASSUMPTIONS = ["PARTIAL: the theorem covers the import sets/orders listed in coq/L_C14.v; other orders are sampled on the real library"]
+ASSUMPTIONS = ["the theorem is about the loader model (coq/Loader.v) on the translated module descriptions and about canonical configurations (names, definitions with flags, exclusions); Python's import machinery itself (dependencies first, each module once) is modelled by Bundled.dep_closure"]
 
 
 def run(ctx):
